@@ -182,21 +182,39 @@ class SArr:
     @property
     def ndim(self): return len(self.shape)
 
+def _sigcast(T, x):
+    """Numba converts arguments and the return value to the types of an explicit signature, wrapping silently.  Only
+    conversions that can change the value are modelled (a narrower or signed integer type); same-class values and
+    64-bit unsigned / float / array / opaque parameters pass through untouched, so untouched kernels cost nothing."""
+    if not isinstance(T, NbMeta) or T.isfloat or isinstance(x, T): return x
+    if T.bits >= 64 and not T.signed: return x
+    if isinstance(x, NPScalar):
+        if x.isfloat: return x
+        return T(x)                      # numpy-scalar -> numpy-scalar conversion wraps (see NPScalar.__init__)
+    if isinstance(x, bool) or not isinstance(x, int): return x
+    v = x & ((1 << T.bits) - 1)
+    if T.signed and v >= (1 << (T.bits - 1)): v -= (1 << T.bits)
+    return T(v)
 class Kernel:
-    def __init__(self, fn): self.py_func=fn; self.__name__=fn.__name__; self.impl=fn; self.record=True
+    def __init__(self, fn, sig=None): self.py_func=fn; self.__name__=fn.__name__; self.impl=fn; self.record=True; self.sig=sig if isinstance(sig, NbSig) else None
     def __call__(self, *args):
+        if self.sig is not None and len(self.sig.args)==len(args): args=tuple(_sigcast(T,a) for T,a in zip(self.sig.args,args))
         if self.record: CALLS.append((self.__name__, args))
-        return self.impl(*args)
+        out=self.impl(*args)
+        if self.sig is not None and self.impl is self.py_func: out=_sigcast(self.sig.ret, out)
+        return out
 def njit(*a, **k):
     if len(a)==1 and callable(a[0]) and not _is_typeish(a[0]): return Kernel(a[0])
-    return lambda fn: Kernel(fn)
+    sig=a[0] if a else None
+    if isinstance(sig,(list,tuple)) and sig: sig=sig[0]
+    return lambda fn: Kernel(fn, sig)
 class _Types:
-    uint8=uint8
+    uint8=uint8; uint16=uint16; uint32=uint32; uint64=uint64; int8=int8; int32=int32; int64=int64; float32=float32; float64=float64
     void=_Opaque("void")
     def Bytes(self,*a): return _Opaque("bytes")
     def Tuple(self,a): return _Opaque("tuple")
 numba=_pytypes.ModuleType("numba")
-for c in (uint8,uint16,uint32,uint64,int64,float64): setattr(numba,c.__name__,c)
+for c in (uint8,uint16,uint32,uint64,int8,int32,int64,float32,float64): setattr(numba,c.__name__,c)
 numba.types=_Types(); numba.njit=njit; numba.prange=range
 numpy=_pytypes.ModuleType("numpy")
 for c in (uint8,uint16,uint32,uint64,int8,int32,int64,float32,float64): setattr(numpy,c.__name__,c)
